@@ -325,7 +325,7 @@ theorem ipv6BoundLax_ok (o l pl : Nat) (h40 : 40 ≤ l) :
 
 theorem mkV6_in (g : Mem) (sm : Bool) (o l nh : Nat) (hp : Win) (src : LenSource) (inc : Bool)
     (h40 : 40 ≤ l) (hh : hp.o = o + 40 ∧ hp.o + hp.l ≤ o + l) :
-    IpIn (mkV6 o nh hp (extsWalk g sm nh hp.o hp.l) src inc) o l := by
+    IpIn (mkV6 sm o nh hp (extsWalk g sm nh hp.o hp.l) src inc) o l := by
   have h1 := extsWalk_in g sm nh hp.o hp.l
   have h2 := extsWalk_suffix g sm nh hp.o hp.l
   obtain ⟨⟨s1, s2, s3, s4, s5, s6⟩, hr⟩ := h1
@@ -333,31 +333,43 @@ theorem mkV6_in (g : Mem) (sm : Bool) (o l nh : Nat) (hp : Win) (src : LenSource
     intro w hw x hx
     exact (hw x hx).mono (by omega) (by omega)
   unfold mkV6
-  refine ⟨by unfold WIn; simp; omega, by simp [OptIn], by unfold WIn; simp; omega,
-    ⟨mono _ s1, mono _ s2, mono _ s3, mono _ s4, mono _ s5, mono _ s6⟩, ?_⟩
-  exact hr.mono (by omega) (by omega)
+  refine ⟨by unfold WIn; simp; omega, by simp [OptIn], by unfold WIn; simp; omega, ?_, ?_⟩
+  · simp only
+    split
+    · exact ⟨mono _ s1, mono _ s2, mono _ s3, mono _ s4, mono _ s5, mono _ s6⟩
+    · exact slotsIn_none o l
+  · exact hr.mono (by omega) (by omega)
+
+theorem ipv6ChainStrict_ok (g : Mem) (sm : Bool) (o : Nat) (hp : Win) (src : LenSource) (r : IpR)
+    (h : ipv6ChainStrict g sm o hp src = .ok r) :
+    r = mkV6 sm o (g (o + 6)) hp (extsWalk g sm (g (o + 6)) hp.o hp.l) src false ∧
+      (extsWalk g sm (g (o + 6)) hp.o hp.l).stop = none := by
+  unfold ipv6ChainStrict at h
+  split at h
+  · contradiction
+  · contradiction
+  · rename_i r' hr'
+    have : r' = extsWalk g sm (g (o + 6)) hp.o hp.l ∧ (extsWalk g sm (g (o + 6)) hp.o hp.l).stop = none := by
+      unfold extsWalkStrict at hr'
+      simp only at hr'
+      split at hr'
+      · contradiction
+      · rename_i hs
+        cases hr'; exact ⟨rfl, hs⟩
+    cases h
+    rw [this.1]
+    exact ⟨rfl, this.2⟩
 
 theorem ipv6AfterHeaderStrict_in (g : Mem) (sm : Bool) (o l : Nat) (r : IpR) (h40 : 40 ≤ l)
     (h : ipv6AfterHeaderStrict g sm o l = .ok r) : IpIn r o l ∧ r.hdr = ⟨o, 40⟩ := by
   unfold ipv6AfterHeaderStrict at h
-  simp only at h
   split at h
   · contradiction
   · rename_i hp src hb
     have hh := ipv6BoundStrict_ok o l _ hp src h40 hb
-    split at h
-    · contradiction
-    · contradiction
-    · rename_i r' hr'
-      have : r' = extsWalk g sm (g (o + 6)) hp.o hp.l := by
-        unfold extsWalkStrict at hr'
-        simp only at hr'
-        split at hr'
-        · contradiction
-        · cases hr'; rfl
-      subst this
-      cases h
-      exact ⟨mkV6_in g sm o l _ hp src false h40 hh, rfl⟩
+    have := (ipv6ChainStrict_ok g sm o hp src r h).1
+    rw [this]
+    exact ⟨mkV6_in g sm o l _ hp src false h40 hh, rfl⟩
 
 theorem ipv6AfterHeaderLax_in (g : Mem) (sm : Bool) (o l : Nat) (h40 : 40 ≤ l) :
     IpIn (ipv6AfterHeaderLax g sm o l).1 o l ∧ (ipv6AfterHeaderLax g sm o l).1.hdr = ⟨o, 40⟩ := by
